@@ -1185,3 +1185,5 @@ RULE += (' GroupBy is also filled with contexts holding lists of dictionaries wh
          'have their keys in different orders (grouped by that item or by the whole context); '
          'Histogram also has geometric (2**0..2**16) and decade (1e-6..1e6) meshes filled with '
          'values on, just beside and between the edges.')
+
+RULE += (' Round 10: 17..600 filled values; histories of 20..120 operations.')
